@@ -48,6 +48,9 @@ pub struct Gen<'r> {
     uniq: u32,
     pub n_sections: u32,
     pub stream_future_nested: bool,
+    /// "chain" shape: every level has its only nested body as its very last section (such trees are deep but
+    /// outside D14, so the positive theorem is sampled at depth 3 and 4 as well)
+    pub chainy: bool,
 }
 
 const PRIMS: [P; 8] = [P::Bool, P::U8, P::S16, P::U32, P::S64, P::F32, P::Char, P::String];
@@ -243,14 +246,20 @@ impl<'r> Gen<'r> {
     fn level(&mut self, depth_left: u32, outer: &mut Vec<Lvl>, budget: &mut i32) -> we::Component {
         let mut c = we::Component::new();
         let mut l = Lvl::default();
-        let nsec = if depth_left == 0 { self.r.below(5) } else { 1 + self.r.below(9) };
+        let nsec = if depth_left == 0 { self.r.below(7) } else { 2 + self.r.below(11) };
+        let mut nested_done = false;
         let mut last_kind = 99u64;
-        let name_pos = if self.r.chance(1, 2) { Some(self.r.below(nsec + 1)) } else { None };
+        let name_pos = if self.r.chance(1, 2) { Some(self.r.below(if self.chainy { nsec.max(1) } else { nsec + 1 })) } else { None };
         for s in 0..nsec {
             if Some(s) == name_pos { self.names(&mut c, &l); }
             if *budget <= 0 { break; }
             *budget -= 1;
-            let kind = if last_kind != 99 && self.r.chance(1, 4) { last_kind } else { self.r.below(16) };
+            // weighted choice of the section kind; a level that may still nest prefers to do so until it has
+            const W: [u64; 30] = [0, 0, 1, 2, 3, 3, 4, 5, 6, 6, 7, 8, 8, 9, 9, 10, 11, 11, 12, 12, 13, 14, 15, 15, 15, 15, 0, 3, 9, 6];
+            let kind = if last_kind != 99 && last_kind != 15 && self.r.chance(1, 4) { last_kind }
+                       else if depth_left > 0 && !nested_done && self.r.chance(1, 3) { 15 }
+                       else { *self.r.pick(&W) };
+            let kind = if self.chainy && matches!(kind, 6 | 7 | 15) { self.r.below(6) } else { kind };
             last_kind = kind;
             self.n_sections += 1;
             let nitems = 1 + self.r.below(3);
@@ -480,6 +489,7 @@ impl<'r> Gen<'r> {
                 }
                 _ => {
                     if depth_left > 0 {
+                        nested_done = true;
                         outer.push(l.clone());
                         let sub = self.level(depth_left - 1, outer, budget);
                         outer.pop();
@@ -496,6 +506,17 @@ impl<'r> Gen<'r> {
             }
         }
         if name_pos == Some(nsec) { self.names(&mut c, &l); }
+        if self.chainy {
+            if depth_left > 0 {
+                outer.push(l.clone());
+                let sub = self.level(depth_left - 1, outer, budget);
+                outer.pop();
+                c.section(&we::NestedComponentSection(&sub));
+            } else if self.r.chance(2, 3) {
+                let m = self.core_module();
+                c.section(&we::ModuleSection(&m));
+            }
+        }
         c
     }
 
@@ -535,14 +556,15 @@ pub fn validate_err(bytes: &[u8]) -> Option<String> {
 /// Draw components until the validator accepts one (at most 40 draws; the last resort is a fixed tiny component).
 pub fn gen_valid_component(r: &mut Rng) -> (Vec<u8>, Vec<String>) {
     for attempt in 0..40 {
-        let maxdepth = match r.below(10) { 0 => 0, 1 | 2 => 1, 3 | 4 | 5 => 2, 6 | 7 | 8 => 3, _ => 4 } as u32;
-        let mut budget = 6 + r.below(30) as i32;
-        let mut g = Gen { r, uniq: 0, n_sections: 0, stream_future_nested: false };
+        let maxdepth = match r.below(10) { 0 => 0, 1 | 2 => 1, 3 | 4 | 5 => 2, _ => 3 } as u32; // component levels below the root; a module may sit one deeper
+        let mut budget = 8 + r.below(50) as i32;
+        let chainy = maxdepth >= 2 && r.chance(1, 3);
+        let mut g = Gen { r, uniq: 0, n_sections: 0, stream_future_nested: false, chainy };
         let c = g.level(maxdepth, &mut vec![], &mut budget);
         let sfn = g.stream_future_nested;
         let bytes = c.finish();
         match validate_err(&bytes) {
-            None => return (bytes, vec![format!("attempts={}", attempt + 1), format!("nested_payloadless_stream={}", sfn)]),
+            None => return (bytes, vec![format!("attempts={}", attempt + 1), format!("nested_payloadless_stream={}", sfn), format!("chain_shape={}", chainy)]),
             Some(e) => { if std::env::var("VH_GENDEBUG").is_ok() { eprintln!("rejected: {}", e); } }
         }
     }
@@ -560,6 +582,8 @@ pub fn witnesses() -> Vec<(String, String)> {
          "(component (component (component (core module)) (core module)))".into()),
         ("D14-depth4: module duplicated into an ancestor".into(),
          "(component (component (component (component (core module)) (core module $m1 (func))) (type (func))))".into()),
+        ("D14-panic: the child's start section leaks into a parent that has its own (assert_eq!(start_section.len(), 1))".into(),
+         "(component (import \"f\" (func $f)) (component (import \"g\" (func $g)) (component (core module)) (start $g)) (start $f))".into()),
         ("D28-min: payload-less stream inside an instance type declaration".into(),
          "(component (type (instance (type (stream)))))".into()),
         ("D28-comp: payload-less stream inside a component type declaration".into(),
